@@ -31,6 +31,9 @@ Definition op_or := Eval compute in bytes_of "$or".
 Definition op_set := Eval compute in bytes_of "$set".
 Definition op_unset := Eval compute in bytes_of "$unset".
 Definition key_id := Eval compute in bytes_of "id".
+Definition ev_insert := Eval compute in bytes_of "insert".
+Definition ev_update := Eval compute in bytes_of "update".
+Definition ev_delete := Eval compute in bytes_of "delete".
 
 Definition is_op (s : list N) : bool := match s with 36%N :: _ => true | _ => false end.
 
@@ -91,14 +94,10 @@ Fixpoint mmatch (filter : value) (doc : option value) {struct filter} : res bool
                     match k with
                     | Some (VString s) =>
                         if negb (is_op s) then
-                          match as_map doc with
-                          | None => Err EType
-                          | Some dt =>
-                              match mo v (field dt s) with
-                              | Err e => Err e
-                              | Ok false => Ok false
-                              | Ok true => gop p'
-                              end
+                          match mo v (match as_map doc with Some dt => field dt s | None => None end) with
+                          | Err e => Err e
+                          | Ok false => Ok false
+                          | Ok true => gop p'
                           end
                         else if list_N_eqb s op_exists then
                           if Bool.eqb (match doc with None => false | Some _ => true end) (exists_wanted v)
